@@ -103,6 +103,27 @@ def page_oracle(c, _e=None):
     return ''
 
 
+def respell(rnd, text):
+    """the same selector with its pseudo-class / pseudo-element / function names in another letter case and with hex
+    escapes (C10: these names are case-insensitive; the specificity must not depend on the spelling)"""
+    import re
+
+    def one(m):
+        out = []
+        name = m.group(2)
+        for i, ch in enumerate(name):
+            r = rnd.random()
+            if ch.isalpha() and r < 0.15:
+                nxt = name[i + 1] if i + 1 < len(name) else ''
+                out.append('\\%x%s' % (ord(ch.upper() if rnd.random() < 0.5 else ch), ' ' if nxt == '' or nxt in '0123456789abcdefABCDEF' else rnd.choice(['', ' '])))
+            elif r < 0.5:
+                out.append(ch.upper())
+            else:
+                out.append(ch)
+        return m.group(1) + ''.join(out)
+    return re.sub(r'(::?)([a-z][a-z-]*)', one, text)
+
+
 def gen_cases(tier, seed):
     rnd = random.Random(seed)
     cases = []
@@ -134,6 +155,11 @@ def gen_cases(tier, seed):
     for _ in range(4000 if tier == 'quick' else 60000):
         text, spec, _pairs = g.selector()
         cases.append((text, NSMAP, spec))
+        if ':' in text and rnd.random() < 0.4:
+            cases.append((respell(rnd, text), NSMAP, spec))
+    for t, sp_ in basis[9:]:
+        for _ in range(6):
+            cases.append(('a' + respell(rnd, t), NSMAP, (sp_[0], sp_[1], sp_[2] + 1)))
     # malformed / rejected (correspondence only)
     junk = ['a,b', 'a >', '> a', 'x|a', 'a..b', 'a[', 'a[]', 'a[=v]', ':not(', ':not()', 'a:not(b c)', '::', 'a:', 'a|', '|',
             'a b %', '@x', 'a:nth-child(', '[p|]', 'p|', '*|', 'a ~ ~ b', 'a#', ':not(a b)', 'a:b(', '1a', 'a 1', '"s"']
